@@ -11,9 +11,11 @@ def run(ctx):
     rxcommon.design(ctx, thorough)
     rxcommon.reader_design(ctx)
     s1 = rxcommon.drive(ctx, "fail0", ["-fail", 60 if thorough else 8, "-failtimeout", 0],
-                        "every byte offset x {EOF, reset, timeout}, read timeout 0 s", env=env)
+                        "every byte offset x {EOF, reset, timeout, EOF with the last bytes}, read timeout 0 s", env=env)
     s2 = rxcommon.drive(ctx, "fail1", ["-fail", 12 if thorough else 3, "-failtimeout", 1, "-failstep", 7 if thorough else 23],
-                        "sampled byte offsets x {EOF, reset, timeout}, read timeout 1 s", env=env)
+                        "sampled byte offsets x {EOF, reset, timeout, EOF with the last bytes}, read timeout 1 s", env=env)
+    s3 = rxcommon.drive(ctx, "errorder", ["-errorder", 20000 if thorough else 2500],
+                        "stress: a polling consumer while a complete packet is followed at once by the end of the stream (order of packages and error)", env=env)
     # failures during a request write: the call that hits the failure reports an error, nothing panics
     import json, os
     t = os.path.join(ctx.scratch, "tx-wfail.ndjson")
